@@ -232,6 +232,11 @@ def rule(fn, kind, expr, ordn, guards, contract):
             return guarded([], 't is non-nil after the first Kind() call returned')
         if expr == 't.Elem()':
             return thm('C07Sites', 'Kit.C07.typeElem_sites', need('t.Kind() == reflect.Ptr'))
+    if fn == 'config.PrefixedBy' and kind == 'make':
+        return '.sizeFromLen "len of a map"'
+    if fn == 'config.uncapitalize':
+        # vv := []rune(str); vv[0]: the model decodes UTF-8 the way the runtime does and mirrors the len(str) guard
+        return thm('C07', 'uncapitalize_never_panics', need('!(len(str) == 0)'))
     if fn == 'config.Normalize':
         return thm('C07', 'normalize_never_panics', need('range i over x'))
     return None
